@@ -52,6 +52,8 @@ class World(object):
         if k == "CXXMemberCallExpr" and e.get("c") and e["c"][0] is not None and e["c"][0]["k"] == "MemberExpr" and \
                 ((self.f.decl(e) or {}).get("n") or "").startswith("operator bool"):
             return truth(self.ev(e["c"][0]["c"][0])) if e["c"][0].get("c") else UNK
+        if k == "UnaryOperator" and e.get("op") in ("&", "*") and e.get("c"):
+            return self.ev(e["c"][0])
         if k in ("UnaryOperator", "CXXOperatorCallExpr") and e.get("op") == "!":
             return frozenset(not v for v in truth(self.ev((call_args(e) if k == "CXXOperatorCallExpr" else e["c"])[-1])))
         if k == "BinaryOperator" and e.get("op") in ("&&", "||"):
@@ -83,6 +85,43 @@ class World(object):
             return frozenset(out)
         return UNK
 
+    def feasible_succs(self, b):
+        """successors of block b that this world does not rule out (two-way branches and switches over a decided value)"""
+        cfg = self.f.cfg()
+        blk = cfg.blocks[b]
+        succs = [s for s in blk.succs if s is not None]
+        t = blk.term
+        if t is not None and t["k"] == "CXXForRangeStmt" and len(blk.succs) == 2:
+            a = self.atom(t)
+            if a is not None and list(a) == [False]:
+                return [blk.succs[1]] if blk.succs[1] is not None else []
+            return succs
+        if t is not None and t["k"] == "SwitchStmt" and t.get("c") and t["c"][0] is not None:
+            v = self.ev(t["c"][0])
+            if len(v) == 1 and ANY not in v:
+                val = next(iter(v))
+                hit, default = [], []
+                for s in succs:
+                    lb = cfg.blocks[s].label if s in cfg.blocks else None
+                    # a case label may be nested: case A: case B: ...
+                    labs = []
+                    while lb is not None and lb["k"] in ("CaseStmt", "DefaultStmt"):
+                        labs.append(lb)
+                        lb = lb["c"][-1] if lb.get("c") else None
+                    if any(l["k"] == "CaseStmt" and l.get("v") == val for l in labs):
+                        hit.append(s)
+                    elif any(l["k"] == "DefaultStmt" for l in labs) or not labs:
+                        default.append(s)
+                return hit or default
+            return succs
+        if cfg.branch(b) is not None:
+            for c in cfg.branch_conds(b):
+                v = truth(self.ev(c))
+                if len(v) == 1:
+                    s = blk.succs[0 if next(iter(v)) else 1]
+                    return [s] if s is not None else []
+        return succs
+
     def blocks(self):
         """blocks reachable in this world, and the set of values returned"""
         f = self.f
@@ -102,14 +141,7 @@ class World(object):
                     break
             if done:
                 continue
-            succs = [s for s in blk.succs if s is not None]
-            if cfg.branch(b) is not None:
-                for c in cfg.branch_conds(b):
-                    v = truth(self.ev(c))
-                    if len(v) == 1:
-                        succs = [blk.succs[0 if next(iter(v)) else 1]]
-                        break
-            stack.extend(s for s in succs if s is not None)
+            stack.extend(self.feasible_succs(b))
         return seen, rets
 
     def returns(self):
@@ -143,14 +175,7 @@ class World(object):
                 continue
             if blk.noret:
                 continue
-            succs = [s for s in blk.succs if s is not None]
-            if cfg.branch(b) is not None:
-                for c in cfg.branch_conds(b):
-                    v = truth(self.ev(c))
-                    if len(v) == 1:
-                        succs = [blk.succs[0 if next(iter(v)) else 1]]
-                        break
-            stack.extend((s, got) for s in succs if s is not None)
+            stack.extend((s, got) for s in self.feasible_succs(b))
         return True
 
     def run_env(self, track):
@@ -209,17 +234,7 @@ class World(object):
                         break
                 if done:
                     continue
-                succs = [s for s in blk.succs if s is not None]
-                if blk.term is not None and blk.term["k"] == "CXXForRangeStmt" and len(blk.succs) == 2:
-                    a = outer(blk.term)
-                    if a is not None and list(a) == [False]:
-                        succs = [blk.succs[1]]
-                elif cfg.branch(b) is not None:
-                    for c in cfg.branch_conds(b):
-                        v = truth(self.ev(c))
-                        if len(v) == 1:
-                            succs = [blk.succs[0 if next(iter(v)) else 1]]
-                            break
+                succs = self.feasible_succs(b)
                 envt2 = tuple(sorted(env.items(), key=lambda kv: kv[0]))
                 stack.extend((s, envt2) for s in succs if s is not None)
         finally:
